@@ -272,7 +272,15 @@ def evaluate(case):
         galg = kd.build_algebra(cfg, graded=True)
 
         def symmv(a_, keys, prefix):
-            grades = sorted({pc(k) for k in keys})
+            grades = {pc(k) for k in keys}
+            extra = (sum(keys) + len(keys)) % 4      # which extra complete (all-zero) grades the stored layout carries
+            if extra == 1:
+                grades |= {min(d, max(grades) + 1)}
+            elif extra == 2:
+                grades |= {max(0, min(grades) - 1)}
+            elif extra == 3:
+                grades = set(range(d + 1))
+            grades = sorted(grades)
             full = list(ref.keys_of_grades(grades))
             sy = {k: sympy.Symbol(f"{prefix}{k}") for k in keys}
             return a_.multivector(keys=tuple(full), values=[sy.get(k, 0) for k in full]), sy
